@@ -146,7 +146,6 @@ func VH_C01_bitflip() {
 	verifReach("C01.bitflip.done", true)
 }
 
-
 // a snapshot taken while another connection marks a key as used still contains every key once
 func VH_C01_concurrent_snapshot() {
 	verifSched(1)
